@@ -16,7 +16,14 @@ import (
 )
 
 func init() {
-	core.Register(core.Check{ID: "C01", Level: "exploration", Run: func(c *core.Ctx) { runC01(c); historyPass(c, "C01"); reentrancyPass(c, "C01"); arch386Pass(c, "C01") }})
+	core.Register(core.Check{ID: "C01", Level: "exploration", Run: func(c *core.Ctx) {
+		again := edFirstUse(c, "C01")
+		runC01(c)
+		historyPass(c, "C01")
+		reentrancyPass(c, "C01")
+		arch386Pass(c, "C01")
+		again()
+	}})
 }
 
 type c01triple struct {
@@ -102,6 +109,22 @@ func runC01(c *core.Ctx) {
 					}
 				}
 			}
+		}
+	}
+	// (2b) R related to A: R = A (byte-equal halves: the nonce is the secret scalar), R = -A, R = 2A, and each of them with
+	// the S that belongs to the OTHER sign of R - decoding, negating or caching one of two equal points must not touch the other
+	for hi := 0; hi < len(hs) && hi < nTor; hi++ {
+		h := hs[(hi*5)%len(hs)]
+		aB := ed.Base().ScalarMult(h.a)
+		aenc := aB.Encode()
+		for _, mult := range []int64{1, -1, 2, -2, 8} {
+			r := ed.ReduceL(new(big.Int).Mul(big.NewInt(mult), h.a))
+			rneg := ed.ReduceL(new(big.Int).Neg(r))
+			renc := ed.Base().ScalarMult(r).Encode()
+			good := ed.SignRaw(renc, aenc, h.a, r, h.msg)
+			add(aenc[:], h.msg, good[:], "R-related-to-A")
+			bad := ed.SignRaw(renc, aenc, h.a, rneg, h.msg) // S computed for -R, sent with R
+			add(aenc[:], h.msg, bad[:], "R-related-to-A/S-of-the-other-sign")
 		}
 	}
 	// (3) malleability
